@@ -56,8 +56,9 @@ def check(ctx):
     # mechanisms this property rests on (see shared.py): a change there is reported here as well
     from . import shared as _sh
 
-    ctx.run(_sh.gaf_reader)
-    ctx.run(_sh.graph_loader)
+    ctx.run(_sh.r17_6)  # C17 owns the reader contract: undecidable here = exit 2
+    ctx.run_shared(_sh.gaf_reader)
+    ctx.run_shared(_sh.graph_loader)
 
 
 def r17_1(ctx):
